@@ -60,7 +60,7 @@ PROP = dict(
                "selfdestruct / touched-empty-with-state-clear the account and every slot read as absent; increment_balance adds "
                "saturating at 2^256-1 (never wraps) and keeps nonce / code / in-memory storage; drain_balance returns the whole "
                "balance and leaves zero. No transition is reported exactly when nothing changed (zero increment; selfdestruct of a "
-               "never-existing account; touch of an absent account). CacheState::insert_not_existing / insert_account / "
+               "never-existing account; touch of an absent account). CacheState::new / set_state_clear_flag / insert_not_existing / insert_account / "
                "insert_account_with_storage: an empty info enters as LoadedEmptyEIP161 with the default info, any other as "
                "Loaded; other entries untouched.",
     level_note="NOT the whole property. Proved: the per-account steps listed above and the status machine. " + LEFT_OUT + " In "
